@@ -25,8 +25,10 @@ package config
 //@   trusted
 //@   ensures cmd == cmdOf(ctx)
 
-//@ func strictRegex [C09]
+//@ func strictRegex [C09, C18]
+//@   requires reCompiles("^" + s + "$")
 //@   ensures result != nil && rePattern(result) == "^" + s + "$"
+//@   safe regexp-must-compile
 
 //@ func parseMatchOperation [C09]
 //@   ensures expr == "<" ==> result0 == opLess && result1 == nil
@@ -75,7 +77,8 @@ package config
 
 // A match block holds iff every condition that is set holds. The label / annotation conditions are delegated to
 // isMatching (below); their answers are captured in ghost variables.
-//@ func Match.IsMatch [C09]
+//@ func Match.IsMatch [C09, C18]
+//@   requires matchValid(m)
 //@   ghost labelRes bool
 //@   ghost annRes bool
 //@   after call MatchLabel.isMatching set labelRes = result0
@@ -84,7 +87,8 @@ package config
 //@              (m.Label == nil || labelRes) && (m.Annotation == nil || annRes) && forOK(m.For, e) && kffOK(m.KeepFiringFor, e)
 
 // label { key value }: some label of the merged (group + rule) label view matches both anchored patterns.
-//@ func MatchLabel.isMatching [C09]
+//@ func MatchLabel.isMatching [C09, C18]
+//@   requires reCompiles(ml.Key) && reCompiles(ml.Value)
 //@   ghost lbls parser.YamlMap
 //@   after call Labels set lbls = result0
 //@   ensures result <==> (exists i int :: 0 <= i && i < len(lbls.Items) &&
@@ -94,7 +98,8 @@ package config
 //@   loop 1 invariant forall i int :: 0 <= i && i < iter ==>
 //@              !(reMatch(anchored(ml.Key), lbls.Items[i].Key.Value) && reMatch(anchored(ml.Value), lbls.Items[i].Value.Value))
 
-//@ func MatchAnnotation.isMatching [C09]
+//@ func MatchAnnotation.isMatching [C09, C18]
+//@   requires reCompiles(ma.Key) && reCompiles(ma.Value)
 //@   ensures result <==> (rule.AlertingRule != nil && rule.AlertingRule.Annotations != nil &&
 //@              (exists i int :: 0 <= i && i < len(rule.AlertingRule.Annotations.Items) &&
 //@                 reMatch(anchored(ma.Key), rule.AlertingRule.Annotations.Items[i].Key.Value) &&
@@ -106,7 +111,11 @@ package config
 //@                reMatch(anchored(ma.Value), rule.AlertingRule.Annotations.Items[i].Value.Value))
 
 // ignore dominates; with match blocks present at least one must hold; no block is skipped.
-//@ func isMatch [C09]
+// (That the blocks reaching isMatch are the validated ones of the loaded configuration is the link from
+// Config.Load to GetChecksForEntry; it is assumed here, not proved.)
+//@ func isMatch [C09, C18]
+//@   assumed requires
+//@   requires (forall i int :: 0 <= i && i < len(ignore) ==> matchValid(ignore[i])) && (forall j int :: 0 <= j && j < len(match) ==> matchValid(match[j]))
 //@   ghost ignHit bool
 //@   ghost matHit bool
 //@   ghost ignCalls int
@@ -209,3 +218,29 @@ package config
 //@   ensures result ==> blocks == len(cfgRules)
 //@   ensures statesOK && gate && !sawDisable && sawEnable && blocks == len(cfgRules) ==> result
 //@   ensures statesOK && gate && !sawDisable && !sawEnable ==> (result ==> gate2)
+
+// ---------------------------------------------------------------------------------------------
+// C18: an accepted configuration never crashes a later lint run.
+// validated facts flow from the validate() functions (load time) to the use sites (lint time): every pattern that
+// reaches regexp.MustCompile at lint time was compiled successfully at load time.
+// A5-re: anchoring a valid pattern with ^...$ keeps it valid.
+//@ axiom re_anchor: forall p string :: reCompiles(p) ==> reCompiles("^" + p + "$")
+
+//@ spec func matchValid(m Match) bool = reCompiles(m.Path) && reCompiles(m.Name) &&
+//@      (m.Label != nil ==> reCompiles(m.Label.Key) && reCompiles(m.Label.Value)) &&
+//@      (m.Annotation != nil ==> reCompiles(m.Annotation.Key) && reCompiles(m.Annotation.Value))
+
+//@ func MatchLabel.validate [C18]
+//@   ensures result == nil ==> reCompiles(ml.Key) && reCompiles(ml.Value)
+//@ func MatchAnnotation.validate [C18]
+//@   ensures result == nil ==> reCompiles(ma.Key) && reCompiles(ma.Value)
+//@ func Match.validate [C18]
+//@   ensures result == nil ==> matchValid(m)
+
+// rule {} blocks: every match and ignore block of an accepted rule is valid.
+//@ func Rule.validate [C18]
+//@   ensures err == nil ==> (forall i int :: 0 <= i && i < len(rule.Match) ==> matchValid(rule.Match[i])) &&
+//@              (forall i int :: 0 <= i && i < len(rule.Ignore) ==> matchValid(rule.Ignore[i]))
+//@   loop 1 invariant 0 <= iter && iter <= len(rule.Match) && forall i int :: 0 <= i && i < iter ==> matchValid(rule.Match[i])
+//@   loop 2 invariant 0 <= iter && iter <= len(rule.Ignore) && (forall i int :: 0 <= i && i < len(rule.Match) ==> matchValid(rule.Match[i])) &&
+//@              forall i int :: 0 <= i && i < iter ==> matchValid(rule.Ignore[i])
